@@ -117,7 +117,12 @@ class Runner:
             if len(self.cache) > 256:
                 self.cache.clear()
             out = C.run_window(specs[:k], sch)
-            hit = (out, C.dump(out.computed) if out.ok else None)
+            dmp = None
+            if out.ok:
+                dmp, derr = C.try_dump(out.computed)
+                if dmp is None:
+                    out = C.Outcome(None, RuntimeError(derr), None)
+            hit = (out, dmp)
             self.cache[key] = hit
         return hit
 
@@ -134,7 +139,10 @@ def judge_node(st: Stats, runner: Runner, hist: History, specs: List[Dict[str, A
         st.violation(dict(base, signature=f"C09 valid history rejected / {type(full.error).__name__}",
                           what=f"{sched_str(sch)}: {H.hist_str(hist)} :: {type(full.error).__name__}: {full.error}"))
         return
-    D = C.dump(full.computed)
+    D, derr = C.try_dump(full.computed)
+    if D is None:
+        st.violation(dict(base, signature="C09 figures unreadable", what=f"{sched_str(sch)}: {H.hist_str(hist)} :: {derr}"))
+        return
     lp = label_problems(D["detail"])
     if lp:
         st.violation(dict(base, signature="C09 fraction labels", what=f"{sched_str(sch)}: {H.hist_str(hist)} :: {lp}"))
@@ -177,7 +185,10 @@ def judge_node(st: Stats, runner: Runner, hist: History, specs: List[Dict[str, A
                 st.violation(dict(base, cut=k, signature=f"C09 to-date run rejected / {type(w.error).__name__}",
                                   what=f"{tag} :: -t {cts[k - 1].date()} rejected: {w.error}"))
                 continue
-            W = C.dump(w.computed)
+            W, werr = C.try_dump(w.computed)
+            if W is None:
+                st.violation(dict(base, cut=k, signature="C09 figures unreadable / to-date run", what=f"{tag} :: -t {cts[k - 1].date()}: {werr}"))
+                continue
             problem = C.diff_dumps(W, P)
             if problem:
                 st.violation(dict(base, cut=k, signature=f"C09 to-date run differs from truncated history / {problem.split(':')[0].split('[')[0]}",
